@@ -43,7 +43,7 @@ func lookupNode[T any](urlTree *URLTree[T], url string) lookupNodeResult[T] {
 		}
 
 		parametricChild := currentNode.ParametricChild.Child
-		if parametricChild != nil &&
+		if parametricChild != nil && urlPart.Value != "" &&
 			parametricChild.IsPartOfHost == urlPart.IsPartOfHost {
 			if name, isPathParam := TryExtractPathParameter(urlPart.Value); isPathParam {
 				if name != currentNode.ParametricChild.Name {
